@@ -1,4 +1,5 @@
 import TcheranVerif.Proofs.MagicCert
+import TcheranVerif.Proofs.Sweep.S08  -- only to bound how many parts are checked at once (≈8 GB each)
 /-! C07 sweep, part 12: rook squares [48, 55] — decided by the kernel alone -/
 namespace Tcheran.Sweep
 
